@@ -228,7 +228,7 @@ CHECKS["C09"] = {
 CHECKS["C19"] = {
     "engine": "E1 lattice explorer",
     "jobs": lambda tier: opt_jobs("C19", tier, (1, 2), (1, 2, 3)),
-    "rule": "unit = (order, DIM, N in 1..3, flag mask, spatial map, both overloads inside); on problems whose finite-difference noise floor is < tol/100: correct functors -> valid, analytical = evaluate's gradient (bitwise), numerical = harness-recomputed central difference on fresh workspaces (bitwise), error_norm / rel_error per definition, workspace spline afterwards = spline of x (bitwise), explicit and built-in workspace, non-default eps/tol; then for EVERY single output component of the time-cost gradient (N), waypoint-cost gradient ((N+1) DIM) and running-cost gradients (gp,gv,ga,gj,gs per component, gt) a functor with that component off by 4: if the induced analytic-gradient error is >= 10 tol the verdict must be false, if it is exactly 0 the verdict must stay true",
+    "rule": "(also: a second self-check at another vector on the same explicit/built-in workspace equals the report of a fresh workspace, bitwise; every influential component delivered as NaN and +Inf must give failure) unit = (order, DIM, N in 1..3, flag mask, spatial map, both overloads inside); on problems whose finite-difference noise floor is < tol/100: correct functors -> valid, analytical = evaluate's gradient (bitwise), numerical = harness-recomputed central difference on fresh workspaces (bitwise), error_norm / rel_error per definition, workspace spline afterwards = spline of x (bitwise), explicit and built-in workspace, non-default eps/tol; then for EVERY single output component of the time-cost gradient (N), waypoint-cost gradient ((N+1) DIM) and running-cost gradients (gp,gv,ga,gj,gs per component, gt) a functor with that component off by 4: if the induced analytic-gradient error is >= 10 tol the verdict must be false, if it is exactly 0 the verdict must stay true",
     "bounds": {"quick": "3 orders x DIM 1..2 x N 1..3 x 16 flag masks x {Identity, Proj}", "thorough": "3 orders x DIM 1..3 x N 1..3 x 256 flag masks x {Identity, Proj}"},
     "thresholds": {"tol": 1e-4, "eps": 1e-6},
     "assumptions": ASSUME_OPT + ["verdicts are only asserted where the finite-difference noise floor is far below tol"],
